@@ -17,7 +17,46 @@ ASSUMPTIONS = [
 ]
 
 
+def _extra_fields_survive(ctx):
+    """"inverting it again gives back a range equal to the original": also for a range class that carries more than its
+    constraints (an attrs field a subclass adds): whatever the class compares in `==` must come back after two inversions"""
+    import attr
+    from univers import version_range as VR
+    from univers.version_constraint import VersionConstraint
+    for scheme, rc in sorted(VR.RANGE_CLASS_BY_SCHEMES.items()):
+        try:
+            extra = [f for f in attr.fields(rc) if f.name != "constraints" and f.init]
+        except Exception:  # noqa: BLE001
+            continue
+        ctx.count("extra-fields", key=scheme, nontrivial=bool(extra))
+        if not extra or rc.version_class is None:
+            continue
+        try:
+            vs = [rc.version_class(t) for t in ("1.0.0", "2.0.0")]
+        except Exception:  # noqa: BLE001
+            try:
+                vs = [rc.version_class(t) for t in ("1.0", "2.0")]
+            except Exception:  # noqa: BLE001
+                continue
+        cons = [VersionConstraint(comparator=">=", version=vs[0]), VersionConstraint(comparator="<", version=vs[1])]
+        for sample in ("libfoo", 7, ("a", "b")):
+            kw = {f.name: sample for f in extra}
+            try:
+                r = rc(constraints=cons, **kw)
+                back = r.invert().invert()
+            except Exception:  # noqa: BLE001 — a field that does not take this value
+                continue
+            if not (back == r) or hash(back) != hash(r):
+                ctx.disagree("extra-fields", "%s(%s)" % (rc.__name__, ", ".join("%s=%r" % kv for kv in kw.items())),
+                             "invert().invert() != range", "equal", True,
+                             {"range_class": rc.__name__, "fields": sorted(kw), "range": repr(r), "twice_inverted": repr(back),
+                              "clause": "a field of the range class is lost by inversion: inverting twice does not give back an equal range"},
+                             spec="equal")
+            break
+
+
 def correspondence(ctx):
+    _extra_fields_survive(ctx)
     L = 6 if ctx.thorough else (5 if ctx.deepen else 4)
     jobs = []
     for n in range(1, L + 1):
